@@ -258,6 +258,7 @@ def run(ch: Checker) -> None:
     ch.rule('C12.14', 'the upstream URL a request is sent to is parsed for that request: Url objects are edited after parsing (dynamic routes append to .remainder, handlers rewrite paths), so neither Url.from_bytes nor anything it calls may be memoised (expected 0 sites)', 1)
     from .common import memoised_objects_check
     memoised_objects_check(ch, 'C12.14', ('Url', 'HttpParser', 'ChunkParser', 'WebsocketFrame'))
+    ch.import_rules('C07', {'C07.1': 'C12.16'}, 'the upstream\'s response reaches the client whole only if teardown waits for the client buffer to drain')
     ch.import_rules('C11', {'C11.13': 'C12.15'}, 'an https upstream named by an IPv6 literal is reachable only if its certificate is matched against the bare address')
     ch.import_rules('C01', {'C01.2': 'C12.11', 'C01.3': 'C12.12'}, 'request body and upstream response cross the reverse proxy unmodified only if the connection buffer sends exactly what was queued')
 
